@@ -22,6 +22,13 @@ pub mod sync;
 
 // Internal utilities
 mod internal;
+
+/// Entry points for the external verification harness; only present in the
+/// controlled-scheduler build (see `internal/sync/verif.rs`).
+#[cfg(all(excsn_fibre_verif, excsn_fibre_verif_shuttle, not(loom)))]
+pub mod verif {
+  pub use crate::internal::sync::verif::reset_virtual_clock;
+}
 mod sync_util;
 mod async_util;
 
